@@ -11,8 +11,8 @@ CORPUS = os.path.join(L.VERIF, "corpus", "C20")
 
 # requests per family: (quick, thorough)
 BUDGET = {
-    "xilinx": (1300, 13000),
-    "ecp5": (600, 6000),
+    "xilinx": (1150, 13000),
+    "ecp5": (550, 6000),
     "ice40": (300, 3000),
     "nx": (300, 3000),
     "nxosc": (100, 800),
@@ -86,7 +86,8 @@ def tally(ctx, recs, label="random"):
         if "outs" in c and c["outs"] is not None:
             ctx.cov.count("%s:nouts=%d" % (fam, len(c["outs"])))
             for o in c["outs"]:
-                ctx.cov.count("margin=%g" % o[2])
+                if len(o) > 2:
+                    ctx.cov.count("margin=%g" % o[2])
         if r.get("error"):
             dis.append({"kind": "machinery", "what": r["error"], "case": c})
             continue
@@ -214,8 +215,8 @@ def probe_ecp5_idempotent():
 def probe_trion_fpll():
     c = {"fam": "trion", "clkin": 16e6, "outs": [(16e6, 0)], "fb": 0, "exact": True}
     r = L.run_cases([c], procs=1)[0]
-    return r.get("region") == "C20-trion-fpll-max-unchecked", "16 MHz in, 16 MHz feedback output: status=%s region=%s %s" % (
-        r["status"], r.get("region"), r["viol"])
+    fails = bool(r["viol"]) or r["status"] not in ("ok", "assertion") or bool(r.get("error"))
+    return fails, "16 MHz in, 16 MHz feedback output: status=%s %s" % (r["status"], r["viol"])
 
 
 DIRECT_PROBES = {"C20-ecp5-compute-config-not-idempotent": probe_ecp5_idempotent,
